@@ -1135,6 +1135,11 @@ func c13RangePairs(c *Ctx, g *load.G) {
 							if nospace(ce.Args[0]) == name && len(ce.Args) == 3 && !ce.Ellipsis.IsValid() {
 								return true
 							}
+							// the range state machine of the class parser collecting into a local: start and end of a range
+							// are appended one at a time (each start is followed by its end), as on the field itself
+							if nospace(ce.Args[0]) == name && len(ce.Args) == 2 && !ce.Ellipsis.IsValid() && fd == machineFd {
+								return true
+							}
 						}
 					}
 					ok = false
